@@ -559,6 +559,9 @@ func UnmarshalVectorYAML(value *yaml.Node) (*GeneralizedType, error) {
 			if length.Sign() < 0 {
 				return nil, parseError(v, "vector length cannot be negative")
 			}
+			if !length.IsUint64() {
+				return nil, parseError(v, "vector length is too large")
+			}
 			asUint64 := length.Uint64()
 			vector.Length = &asUint64
 		default:
